@@ -975,3 +975,323 @@ def gen_compacts(rng, n):
         if rng.random() < 0.08:
             b = b[:rng.randrange(0, 8)]
         yield b
+
+
+# ==============================================================================================
+# B2. paging end to end: one storing node, n announcing peers, the real value finder
+# ==============================================================================================
+
+def run_paging_sim(run, model, case):
+    n, seed = case['n'], case['seed']
+    sim = Sim(seed, 2)
+
+    async def go():
+        await sim.start()
+        await asyncio.sleep(320)
+        blob = constants.digest(b'paging-blob-%d' % seed)
+        anns = [LightAnnouncer(sim, j) for j in range(n)]
+        for a in anns:
+            r = await a.announce_to(blob, [sim.nodes[0]])
+            if not r[0][1]:
+                raise RuntimeError('store refused')
+        found, finder, fin = await sim.value_lookup(1, blob, max_probes=200)
+        return blob, anns, found, finder, fin
+
+    try:
+        blob, anns, found, finder, fin = sim.run(go())
+        order = {a.protocol.node_id: j + 1 for j, a in enumerate(anns)}
+        shuffled = [j + 1 for j in range(n)]
+        if n > K:
+            random.Random(sim.nodes[0].protocol.node_id).shuffle(shuffled)
+        asked = [rec['page'] for rec in finder._events if rec['e'] == 'probe' and rec.get('outcome') == 'reply']
+        impl = {'delivered': [order.get(p.node_id, 0) for p in found], 'asked': asked, 'finished': fin}
+        res = model.call('walk_honest', l=shuffled)
+        mod = {'delivered': res['delivered'], 'asked': res['asked'], 'finished': res['finished']}
+        problems = []
+        got = [order.get(p.node_id, 0) for p in found]
+        if n <= K * 33 and (sorted(got) != list(range(1, n + 1))):
+            missing = sorted(set(range(1, n + 1)) - set(got))
+            problems.append(f'{n} peers announced the blob to one node; the value lookup returned {len(got)} '
+                            f'({len(set(got))} distinct); missing announcers {missing[:10]}')
+        if not fin:
+            problems.append('value lookup did not finish')
+        return impl, mod, problems, sim.traces
+    finally:
+        sim.close()
+
+
+def withheld_old(node_id, n):
+    l = list(range(n))
+    random.Random(node_id).shuffle(l)
+    return l[K * (n // (K + 1) + 2):]
+
+
+def run_crafted_loss(run, model, case):
+    """8 storing nodes whose shuffles all put the same announcer last (the network-wide form of finding F9)"""
+    n_ann, seed, full = case['n_ann'], case['seed'], case.get('full', False)
+    rng = random.Random(seed)
+    ids8, target = [], None
+    while len(ids8) < 8:
+        nid = b'\x00' + bytes(rng.randrange(256) for _ in range(47))
+        w = withheld_old(nid, n_ann)
+        if target is None:
+            target = w
+        if w == target:
+            ids8.append(nid)
+
+    def far():
+        return b'\xff' + bytes(rng.randrange(256) for _ in range(47))
+    n_full = 10 + (n_ann if full else 0)
+    ids = [far()] + ids8 + [far()] + [far() for _ in range(n_full - 10)]
+    sim = Sim(seed, n_full, None, (), ids=ids)
+    blob = b'\x00' * 48
+
+    async def go():
+        await sim.start()
+        await asyncio.sleep(1200)
+        if full:
+            ann_ids = []
+            for a in range(10, n_full):
+                await sim.nodes[a].announce_blob(blob.hex())
+                ann_ids.append(sim.nodes[a].protocol.node_id)
+        else:
+            la = [LightAnnouncer(sim, j) for j in range(n_ann)]
+            for a in la:
+                await a.announce_to(blob, sim.nodes[1:9])
+            ann_ids = [a.protocol.node_id for a in la]
+        per_node = [len(nd.protocol.data_store.get_peers_for_blob(blob)) for nd in sim.nodes[1:9]]
+        found, f, fin = await sim.value_lookup(9, blob, max_probes=600)
+        return ann_ids, per_node, found, fin
+    try:
+        ann_ids, per_node, found, fin = sim.run(go())
+        got = {p.node_id for p in found}
+        missing = [j for j, i in enumerate(ann_ids) if i not in got]
+        problems = []
+        if missing or not fin:
+            problems.append(f'honest loss-free network, {n_ann} announcers, 8 storing nodes hold {per_node}: '
+                            f'value lookup misses announcers {missing} (would-be withheld index {target})')
+        return {'per_node': per_node, 'found': len(found)}, problems, sim.traces
+    finally:
+        sim.close()
+
+
+# ==============================================================================================
+# E. network scenarios and monitors
+# ==============================================================================================
+
+async def quiescent_jump_to(sim, target):
+    """suspend-and-resume: when no datagram is in flight and no request is pending, move the clock"""
+    for _ in range(4000):
+        if sim.net.in_flight == 0 and all(not nd.protocol.sent_messages for nd in sim.nodes):
+            break
+        await asyncio.sleep(0.05)
+    if target > sim.loop._vt:
+        sim.loop._vt = float(target)
+    await asyncio.sleep(0)
+
+
+def peer_wellformed(p):
+    try:
+        ok_ip = independent_public(int(ipaddress.ip_address(p.address)))
+    except Exception:
+        ok_ip = False
+    return ok_ip and isinstance(p.node_id, bytes) and len(p.node_id) == 48 and p.tcp_port is not None \
+        and 1024 <= p.tcp_port <= 65535
+
+
+def check_lookup(sim, i, finder, found, finished, t0, t1):
+    """termination and output-validity monitor for one lookup of node i; returns list of problems"""
+    problems = []
+    me = sim.nodes[i].protocol
+    seeds = sum(1 for c in finder._events[0]['calls'] if c['c'] == 'sched') if finder._events else 0
+    learned = len(finder._learned)
+    if not finished:
+        problems.append(f'{finder.KIND} lookup did not finish ({finder._n_sched} probes, {learned} peers learned)')
+    if finder._n_sched > seeds + 33 * max(learned, 1):
+        problems.append(f'{finder.KIND} lookup scheduled {finder._n_sched} probes for {learned} peers learned')
+    if finder.KIND == 'node' and finder._n_sched > seeds + learned:
+        problems.append(f'node lookup scheduled {finder._n_sched} probes for {learned} peers learned')
+    if t1 - t0 > RPC_TIMEOUT * finder._n_sched + 1.0:
+        problems.append(f'{finder.KIND} lookup took {t1 - t0:.1f}s of virtual time for {finder._n_sched} probes '
+                        f'(bound {RPC_TIMEOUT * finder._n_sched + 1.0:.1f}s)')
+    if finder.KIND == 'node':
+        replied = sim.net.responses_from.get((me.external_ip, me.udp_port), set())
+        for p in found:
+            if p.node_id == me.node_id:
+                problems.append('node lookup yielded the searching node itself')
+            if (p.address, p.udp_port) not in replied:
+                problems.append(f'node lookup yielded {p.address}:{p.udp_port} which never replied to the searcher')
+        if len(set(found)) != len(found):
+            problems.append('node lookup yielded a peer twice')
+    else:
+        for p in found:
+            if not peer_wellformed(p):
+                problems.append(f'value lookup yielded a malformed / non-public peer {p.address}:{p.tcp_port}')
+    return problems
+
+
+def gen_hit_case(rng, n, idx):
+    delay_hi = rng.choice([0.05, 0.3, 1.0, 2.0])
+    return {'part': 'hit', 'n': n, 'seed': rng.randrange(1 << 30), 'delay': [0.001, delay_hi],
+            'dup': rng.choice([0.0, 0.1, 0.4]), 'announcers': rng.choice([1, 1, 2, 3]),
+            'settle': rng.choice([0, 0, 30, 600, 2000]), 'passage': 'jump'}
+
+
+def run_hit_case(run, model, case):
+    n, seed = case['n'], case['seed']
+    sim = Sim(seed, n, Profile(delay=tuple(case['delay']), dup=case['dup']))
+    rng = random.Random(seed * 7 + 1)
+    info = {'checkpoints': {}, 'stored': [], 'closest_overlap': [], 'tries': []}
+
+    async def lookups(label, blob, announcers, must, windows):
+        async def one(i):
+            t0 = sim.loop.time()
+            found, finder, fin = await sim.value_lookup(i, blob, max_probes=2000)
+            return i, found, finder, fin, t0, sim.loop.time()
+        results = await asyncio.gather(*[one(i) for i in range(n)])
+        problems, misses, hits, late = [], [], [], 0
+        for i, found, finder, fin, t0, t1 in results:
+            problems.extend(check_lookup(sim, i, finder, found, fin, t0, t1))
+            ids = {p.node_id for p in found}
+            for a in announcers:
+                if a == i:
+                    continue
+                aid = sim.nodes[a].protocol.node_id
+                lo, hi = windows[a]
+                if must == 'hit':
+                    if t1 >= lo + EXPIRY:
+                        late += 1
+                    elif aid not in ids:
+                        misses.append((i, a))
+                elif must == 'miss' and t0 > hi + EXPIRY and aid in ids:
+                    hits.append((i, a))
+        info['checkpoints'][label] = {'lookups': len(results), 'misses': len(misses), 'stale_hits': len(hits), 'late': late}
+        if misses:
+            problems.append(f'[{label}] loss-free honest network of {n}: value lookups (searcher, announcer) {misses[:8]} '
+                            f'miss a live announcement ({len(misses)} of {len(results)} lookups)')
+        if hits:
+            problems.append(f'[{label}] value lookups {hits[:8]} still return an announcement older than 24 h')
+        return problems
+
+    async def go():
+        problems = []
+        order = list(range(1, n))
+        rng.shuffle(order)
+        gaps = [rng.choice([0.0, 0.1, 1.0, 3.0, 20.0]) for _ in order]
+        await sim.start(order, gaps)
+        await asyncio.wait_for(sim.nodes[0].joined.wait(), 3000)
+        await asyncio.sleep(case['settle'])
+        blob = bytes(rng.randrange(256) for _ in range(48))
+        announcers = rng.sample(range(n), min(case['announcers'], n))
+        need = min(5, n - 1)
+        windows = {}
+        for a in announcers:
+            tries = 0
+            while True:
+                tries += 1
+                t_a0 = sim.loop.time()
+                stored = await sim.nodes[a].announce_blob(blob.hex())
+                if len(stored) >= need or tries >= 40:
+                    break
+                await asyncio.sleep(60)          # BlobAnnouncer: "retrying soon"
+            windows[a] = (t_a0, sim.loop.time())
+            info['tries'].append(tries)
+            info['stored'].append(len(stored))
+            if len(stored) < need:
+                problems.append(f'node {a} could not announce to {need} nodes in 40 attempts (stored to {len(stored)})')
+            close = {nd.protocol.node_id for nd in sim.true_closest(blob, exclude=(a,))[:K]}
+            info['closest_overlap'].append([len(close & set(stored)), min(K, n - 1)])
+        first_lo = min(w[0] for w in windows.values())
+        last_hi = max(w[1] for w in windows.values())
+        problems += await lookups('fresh', blob, announcers, 'hit', windows)
+        if case['passage'] == 'real':
+            await asyncio.sleep(max(0.0, first_lo + EXPIRY / 2 - sim.loop.time()))
+        else:
+            await quiescent_jump_to(sim, first_lo + EXPIRY / 2)
+        problems += await lookups('+12h', blob, announcers, 'hit', windows)
+        if case['passage'] == 'real':
+            await asyncio.sleep(max(0.0, first_lo + EXPIRY - 150 - sim.loop.time()))
+        else:
+            await quiescent_jump_to(sim, first_lo + EXPIRY - 150)
+        problems += await lookups('24h-150s', blob, announcers, 'hit', windows)
+        if case['passage'] == 'real':
+            await asyncio.sleep(max(0.0, last_hi + EXPIRY + 0.5 - sim.loop.time()))
+        else:
+            await quiescent_jump_to(sim, last_hi + EXPIRY + 0.5)
+        problems += await lookups('24h+', blob, announcers, 'miss', windows)
+        return problems
+    try:
+        problems = sim.run(go())
+        return info, problems, sim.traces
+    finally:
+        sim.close()
+
+
+FAULT_KINDS = list(HOSTILE_KINDS) + ['endless_pager']
+
+
+def gen_fault_case(rng, idx):
+    n = rng.choice([4, 6, 9, 12, 16, 24])
+    kinds = [FAULT_KINDS[(idx + j * 5) % len(FAULT_KINDS)] for j in range(rng.choice([1, 2, 3]))]
+    return {'part': 'fault', 'n': n, 'seed': rng.randrange(1 << 30), 'delay': [0.001, rng.choice([0.2, 1.0, 3.0, 7.0])],
+            'dup': rng.choice([0.0, 0.3]), 'loss': rng.choice([0.0, 0.05, 0.2, 0.5]),
+            'dead': rng.choice([0, 1, 2, n // 2]), 'hostile': kinds}
+
+
+def run_fault_case(run, model, case):
+    n, seed = case['n'], case['seed']
+    sim = Sim(seed, n, Profile(delay=tuple(case['delay']), dup=case['dup'], loss=case['loss']), case['hostile'])
+    rng = random.Random(seed * 11 + 3)
+    info = {'lookups': 0, 'alias_yields': 0, 'hostile_answered': 0}
+
+    async def go():
+        problems = []
+        try:
+            await sim.start()
+        except asyncio.TimeoutError:
+            pass
+        await asyncio.sleep(rng.choice([400, 1000, 1600]))
+        blob = bytes(rng.randrange(256) for _ in range(48))
+        live = list(range(n))
+        try:
+            await asyncio.wait_for(sim.nodes[rng.randrange(n)].announce_blob(blob.hex()), 600)
+        except Exception:
+            pass        # announcing into a faulty network is outside this property
+        dead = rng.sample(range(1, n), min(case['dead'], n - 1))
+        for d in dead:
+            sim.net.kill(sim.addr(d))
+        live = [i for i in range(n) if i not in dead]
+        real_ids = {nd.protocol.node_id for nd in sim.nodes} | {h.node_id for h in sim.hostiles}
+        searchers = rng.sample(live, min(len(live), 3))
+        for i in searchers:
+            keys = [bytes(rng.randrange(256) for _ in range(48)), sim.nodes[i].protocol.node_id,
+                    sim.nodes[rng.choice(live)].protocol.node_id, blob]
+            if dead:
+                keys.append(sim.nodes[dead[0]].protocol.node_id)
+            if sim.hostiles:
+                keys.append(sim.hostiles[0].node_id)
+            for key in keys:
+                t0 = sim.loop.time()
+                try:
+                    found, finder = await asyncio.wait_for(sim.node_lookup(i, key), 6000)
+                    fin = True
+                except asyncio.TimeoutError:
+                    found, finder, fin = [], sim.traces[-1], False
+                problems += check_lookup(sim, i, finder, found, fin, t0, sim.loop.time())
+                info['lookups'] += 1
+                info['alias_yields'] += sum(1 for p in found if p.node_id not in real_ids)
+            for key in (blob, bytes(rng.randrange(256) for _ in range(48))):
+                t0 = sim.loop.time()
+                try:
+                    found, finder, fin = await asyncio.wait_for(sim.value_lookup(i, key, max_probes=3000), 9000)
+                except asyncio.TimeoutError:
+                    found, finder, fin = [], sim.traces[-1], False
+                problems += check_lookup(sim, i, finder, found, fin, t0, sim.loop.time())
+                info['lookups'] += 1
+        info['hostile_answered'] = sum(h.answered for h in sim.hostiles)
+        return problems
+    try:
+        problems = sim.run(go())
+        return info, problems, sim.traces
+    finally:
+        sim.close()
